@@ -77,7 +77,7 @@ Step ==
               LET m1 == AnalyzeFnD(ix, AllDevs, e.f, e.m, e.cleanup)
               IN  /\ Matches(m1, e.post, ix.version)
                   /\ ix' = Adopt(m1, e.post)
-         [] e.ev = "close" -> ix' = DropCaches(ix, e.f)
+         [] e.ev = "close" -> ix' = CloseFn(ix, AllDevs, e.f)
          [] e.ev = "evict" -> ix' = DropCaches(ix, e.f)       \* one victim of evict_cache_if_needed (mod.rs:336-343)
          [] e.ev = "refs" ->
               \* find_references_for_definition of the definition recorded at (e.f, e.idx) under name e.n
